@@ -158,6 +158,12 @@ func sweepBuildDir(id string) {
 			continue
 		}
 		if !alive(m[1]) {
+			if strings.HasPrefix(n, "crash-") {
+				// logs of dead workers are kept for a while for inspection
+				if fi, err := e.Info(); err == nil && time.Since(fi.ModTime()) < 3*time.Hour {
+					continue
+				}
+			}
 			os.RemoveAll(filepath.Join(buildDir, n))
 		}
 	}
@@ -318,12 +324,13 @@ func cmdReplay(args []string) {
 		Violation struct {
 			Class string `json:"class"`
 		} `json:"violation"`
+		RaceBuild bool `json:"race_build"`
 	}
 	if err := json.Unmarshal(b, &rf); err != nil {
 		infra("bad replay file: %v", err)
 	}
 	spec := specs[rf.Property]
-	bin := buildWorker(spec, spec != nil && spec.Race)
+	bin := buildWorker(spec, rf.RaceBuild || (spec != nil && spec.Race))
 	cmd := exec.Command(bin, "-test.run", "TestWorker", "-test.timeout", "30m")
 	cmd.Dir = verifDir
 	cmd.Env = append(os.Environ(), "VERIF_CHECK="+rf.Property, "VERIF_REPLAY="+path, "VERIF_REPLAY_TIMES="+strconv.Itoa(*times))
@@ -428,6 +435,7 @@ func cmdCheck(args []string) {
 		output    string
 		aggOK     bool
 		racePhase bool
+		bin       string // the worker binary of the phase this result belongs to
 	}
 	type phase struct {
 		race  bool
@@ -548,6 +556,7 @@ func cmdCheck(args []string) {
 						if ph.race && !r.aggOK {
 							r.racePhase = true
 						}
+						r.bin = bin
 						resMu.Lock()
 						phaseResults = append(phaseResults, r)
 						resMu.Unlock()
@@ -629,7 +638,7 @@ func cmdCheck(args []string) {
 					// exactly (DESIGN 2.6), so this is not re-confirmed by repetition:
 					// the runtime's detection is unambiguous.
 					rp := filepath.Join(replayDir, fmt.Sprintf("%s-%d-%d.json", id, seed, idx))
-					rf := map[string]any{"property": id, "scenario": md.Name, "tier": *tier, "base_seed": seed, "index": idx, "run_seed": rseed, "regenerate": true,
+					rf := map[string]any{"property": id, "scenario": md.Name, "tier": *tier, "base_seed": seed, "index": idx, "run_seed": rseed, "regenerate": true, "race_build": r.racePhase,
 						"violation": map[string]any{"property": id, "class": "process-death", "message": reason},
 						"rendering": map[string]any{"death": reason, "log_head": firstLines(r.output, 40), "note": "phase R (race build): the Go runtime aborted the process on concurrent map access in risor code"}}
 					b, _ := json.MarshalIndent(rf, "", " ")
@@ -643,7 +652,11 @@ func cmdCheck(args []string) {
 					break
 				}
 				out := filepath.Join(outDir, fmt.Sprintf("confirm-%d.json", idx))
-				cmd := exec.Command(bin, "-test.run", "TestWorker", "-test.timeout", "30m")
+				cbin := bin
+				if r.bin != "" {
+					cbin = r.bin
+				}
+				cmd := exec.Command(cbin, "-test.run", "TestWorker", "-test.timeout", "30m")
 				cmd.Dir = verifDir
 				cmd.Env = append(os.Environ(), "VERIF_CHECK="+id, "VERIF_TIER="+*tier, "VERIF_SEED="+strconv.FormatUint(seed, 10),
 					"VERIF_FROM="+strconv.Itoa(idx), "VERIF_TO="+strconv.Itoa(idx+1), "VERIF_STRIDE=1", "VERIF_OUT="+out, "VERIF_REPLAY_DIR="+replayDir, "VERIF_RUN_LIMIT_S=45")
@@ -655,7 +668,7 @@ func cmdCheck(args []string) {
 				}
 				reason2 := deathReason(string(cout))
 				rp := filepath.Join(replayDir, fmt.Sprintf("%s-%d-%d.json", id, seed, idx))
-				rf := map[string]any{"property": id, "scenario": md.Name, "tier": *tier, "base_seed": seed, "index": idx, "run_seed": rseed, "regenerate": true,
+				rf := map[string]any{"property": id, "scenario": md.Name, "tier": *tier, "base_seed": seed, "index": idx, "run_seed": rseed, "regenerate": true, "race_build": r.racePhase,
 					"violation": map[string]any{"property": id, "class": "process-death", "message": reason2},
 					"rendering": map[string]any{"first_death": reason, "confirmed_death": reason2, "note": "the worker process died while executing this run; replay regenerates the tape from run_seed and counts a repeated death as reproduction"}}
 				b, _ := json.MarshalIndent(rf, "", " ")
@@ -736,6 +749,18 @@ func cmdCheck(args []string) {
 			fmt.Printf("VIOLATION property=%s replay=%s\n", id, v.Replay)
 		}
 		os.Exit(1)
+	}
+	// Runs whose workload precondition failed (a generated program that must run
+	// cleanly without faults did not) decide nothing: with no violation found
+	// elsewhere that is trouble with the tree or the harness, not a pass.
+	pre := 0
+	for k, v := range total.Inconclusive {
+		if strings.HasPrefix(k, "precondition_") {
+			pre += v
+		}
+	}
+	if pre > 0 {
+		infra("%d run(s) could not be judged: the fault-free reference execution of a generated workload failed on this tree (see evidence: inconclusive)", pre)
 	}
 	os.Exit(0)
 }
